@@ -29,6 +29,8 @@ func membershipFactory.New.$[a,s]
   // C19: once verification has been reached, an alert is raised iff it failed
   ensures C19/alert-iff-not-verified: verifyCalls == old(verifyCalls) + 1 ==> (lastVerify ==> alerts == old(alerts)) && (!lastVerify ==> alerts == old(alerts) + 1)
   ensures C19/at-most-one-verification: verifyCalls == old(verifyCalls) || verifyCalls == old(verifyCalls) + 1
+  // no snapshot is waved through: the task reports success only after a verification took place
+  ensures C19/success-means-verified: isnil(result) ==> verifyCalls == old(verifyCalls) + 1
 
 // ---- monitor ----------------------------------------------------------------------
 
@@ -43,6 +45,8 @@ func incrementalFactory.New.$[a,b]
   requires a.Qed.hasherF != nil && pure_fn(a.Qed.hasherF) && nonnil_fn(a.Qed.hasherF)
   modifies everything, alerts, verifyCalls, lastVerify, lastVerifyHistory, lastVerifyHyper, reqCount, lastReqWasPrimary
   ensures C19/alert-iff-not-verified: verifyCalls == old(verifyCalls) + 1 ==> (lastVerify ==> alerts == old(alerts)) && (!lastVerify ==> alerts == old(alerts) + 1)
+  // no batch is waved through: the task reports success only after a verification took place
+  ensures C19/success-means-verified: isnil(result) ==> verifyCalls == old(verifyCalls) + 1
 
 // ---- publisher --------------------------------------------------------------------
 
